@@ -147,8 +147,9 @@ def build(cfg: Dict[str, Any], draw: int) -> Built:
     if op == "matmul":
         a, b, c = cfg["a"], cfg["b"], cfg["c"]
         vec = cfg.get("vec")          # torch.matmul also takes 1-D operands: "left" = [b] @ [b, c], "right" = [a, b] @ [b], "both" = [b] @ [b]
-        inp["left"] = randn(g, [b] if vec in ("left", "both") else batch + [a, b], dt)
-        inp["right"] = randn(g, [b] if vec in ("right", "both") else batch + [b, c], dt)
+        # batch_left / batch_right: the operands' own batch dims where they differ (torch.matmul broadcasts them)
+        inp["left"] = randn(g, [b] if vec in ("left", "both") else list(cfg.get("batch_left", batch)) + [a, b], dt)
+        inp["right"] = randn(g, [b] if vec in ("right", "both") else list(cfg.get("batch_right", batch)) + [b, c], dt)
         return Built(lambda i: U.matmul(i["left"], i["right"], **ckw), lambda i: torch.matmul(i["left"], i["right"]), inp, ["left", "right"])
     if op in ("linear", "linear_readout"):
         fi, fo = cfg["fan_in"], cfg["fan_out"]
